@@ -660,11 +660,8 @@ func (c *c11World) startMain() {
 func (c *c11World) startWatched(name *string, ok *bool) error {
 	done := make(chan struct{})
 	go func() {
-		tm := time.NewTimer(20 * time.Second)
-		defer tm.Stop()
-		select {
-		case <-done:
-		case <-tm.C:
+		// (20 s in which the simulated CPU was idle: see simrt.IdleTimeout)
+		if simrt.IdleTimeout(done, 20*time.Second) {
 			simrt.Note("C11.returns", "hang:Start:after-"+c.lastKind, "Start(%s) did not return within 20 s of simulated time (%s); tasks: %v", *name, c.whyDown(), simrt.AliveTaskInfo())
 		}
 	}()
@@ -903,11 +900,7 @@ func (c *c11World) call(r *c11Req) {
 
 	done := make(chan struct{})
 	go func() {
-		tm := time.NewTimer(20 * time.Second)
-		defer tm.Stop()
-		select {
-		case <-done:
-		case <-tm.C:
+		if simrt.IdleTimeout(done, 20*time.Second) {
 			sig, what := c.hangSignature(r)
 			simrt.Note("C11.returns", sig, "%s(%s) did not return within 20 s of simulated time: %s; tasks: %v", r.kind, r.desc, what, simrt.AliveTaskInfo())
 		}
@@ -1077,16 +1070,17 @@ func (c *c11World) hangSignature(r *c11Req) (sig, what string) {
 func (c *c11World) checkProgress(after string, need int) {
 	target := c.any.readCounter + need
 	last := c.any.readCounter
-	deadline := time.Now().Add(20 * time.Second)
+	// 20 s in which the simulated CPU was idle (time charged for scheduler steps does not count: simrt.IdleTimeout)
+	since, steps0 := time.Now(), simrt.Steps()
 	step := c.blockTime / 3
 	for c.any.readCounter < target {
 		if c.state() != c11Healthy || c.endReq != 0 {
 			return
 		}
 		if n := c.any.readCounter; n != last {
-			last, deadline, step = n, time.Now().Add(20*time.Second), c.blockTime/3
+			last, since, steps0, step = n, time.Now(), simrt.Steps(), c.blockTime/3
 		}
-		if time.Now().After(deadline) {
+		if time.Since(since)-time.Duration(simrt.Steps()-steps0)*simrt.StepCost() > 20*time.Second {
 			simrt.Fail("C11.progress", "progress:stalled-after:"+after, "no data block was processed for 20 s of simulated time after %s although the source is running (blocks processed: %d); tasks: %v", after, last, simrt.AliveTaskInfo())
 		}
 		time.Sleep(step)
